@@ -123,7 +123,7 @@ def check_operation(db, func, req_text, kind="A", static_conds=None, assume=None
         for a in extra:
             T.atoms(a, atom_sorts)
         # stale (versioned) atoms and fresh loop atoms are not part of the entry state: they stay unknown
-        entry_atoms = dict((n, s) for n, s in atom_sorts.items() if "#" not in n and "@L" not in n)
+        entry_atoms = dict((n, s) for n, s in atom_sorts.items() if "#" not in n and "@L" not in n and "@X" not in n)
         # state of sub-objects whose relation to the receiver's state is not known is not entry-determined:
         # such atoms stay unassigned (guards mentioning them evaluate to unknown) unless the requirement names them
         req_atoms = T.atoms(req)
@@ -163,7 +163,7 @@ def inst_prog(prog, sc):
     out = []
     for nd in prog:
         k = nd[0]
-        if k in ("guard", "oblige"):
+        if k in ("guard", "oblige", "assume"):
             out.append((k, T.instantiate_sorts(nd[1], sc), nd[2]))
         elif k == "branch":
             out.append((k, T.instantiate_sorts(nd[1], sc), inst_prog(nd[2], sc), inst_prog(nd[3], sc), nd[4]))
